@@ -23,11 +23,14 @@ def E(x):
     return tuple(x)
 
 
+SNAPSHOT_ABOVE, SNAPSHOT_EVERY = 40, 25
+
+
 class C20(Prop):
     pid = "C20"
     case_limit = 20          # a history takes milliseconds; a draw that never returns is cut off after this many seconds
     title = "DrawSet behaves as a set under any history"
-    rule = ("random operation sequences (add/remove/draw/contains/len/iter) over universes of 1-8 integer pairs (every fifth case also None, '', 'x', 0, False, (), frozenset(), a NaN object as members) (every sixtieth case: a set of 258-300 members built first), "
+    rule = ("random operation sequences (add/remove/draw/contains/len/iter) over universes of 1-8 integer pairs (every fifth case also None, '', 'x', 0, False, (), frozenset(), a NaN object as members) (every sixtieth case (every 300th in the thorough tier): a set of 258-300 members built first), "
             "plus every sequence of <= L add/remove operations over a 3-element universe (L=4 quick, 6 thorough); "
             "a case is non-trivial when it performs at least one removal of a present element that is not the last "
             "list slot (the swap-with-last path) or an absent removal; distinct = distinct operation sequence")
@@ -59,7 +62,7 @@ class C20(Prop):
                 universe.remove([-1, 5])          # 0 == False: one member, not two
         n = rng.randint(1, 80)
         ops = []
-        if i % 60 == 9:
+        if i % (60 if tier == "quick" else 300) == 9:
             # a large set: several hundred members before the mixed history starts
             universe = [[a, 1000 + a] for a in range(rng.randint(258, 300))]
             ops = [["add", e] for e in universe]
@@ -199,6 +202,11 @@ class C20(Prop):
                 viol.append("some-member-cannot-be-drawn")
             unexpected += not scripted
             e, m = state()
+            if len(ref) > SNAPSHOT_ABOVE and len(steps) % SNAPSHOT_EVERY and len(steps) + 1 < len(case["ops"]):
+                # a large set: the private state is compared with the model after every 25th operation and after the last one
+                # (the set-level clauses above are checked after every operation all the same)
+                steps.append({"res": res, "state": "not-recorded", "size": len(ref)})
+                continue
             steps.append({"res": res, "state": {
                 "edges": None if e is None else [list(E(x)) for x in e],
                 "map": None if m is None else sorted([list(E(k)), v] for k, v in m.items())}})
@@ -221,8 +229,11 @@ class C20(Prop):
 
     def model(self, case, reply, obs):
         steps = []
-        for op, s in zip(case["ops"], reply["steps"]):
-            s["state"]["map"] = sorted(s["state"]["map"])
+        for k, (op, s) in enumerate(zip(case["ops"], reply["steps"])):
+            if k < len(obs.get("steps", [])) and obs["steps"][k].get("state") == "not-recorded":
+                s = {"res": s.get("res"), "state": "not-recorded", "size": len(s["state"]["edges"])}
+            else:
+                s["state"]["map"] = sorted(s["state"]["map"])
             if op[0] == "iter" and isinstance(s.get("res"), list):
                 s["res"] = sorted(s["res"])          # the order of iteration is not part of the property
             steps.append(s)
@@ -253,7 +264,10 @@ class C20(Prop):
                     return True
                 if prev and prev[-1] != op[1]:
                     return True
-            prev = st["state"]["edges"] or []
+            if isinstance(st["state"], dict):
+                prev = st["state"]["edges"] or []
+            else:
+                return True          # a large set: counted as non-trivial
         return False
 
     def stats(self, case, obs, hist):
